@@ -298,9 +298,10 @@ func isExportedFunc(fn string) bool {
 }
 
 // pickFrames applies the key rule to a list of function names ordered innermost first:
-//   fn    = innermost repository function (the faulting function),
-//   entry = outermost exported function of fn's package on the stack (the API boundary of the package
-//           that contains the fault); fn itself when there is none.
+//
+//	fn    = innermost repository function (the faulting function),
+//	entry = outermost exported function of fn's package on the stack (the API boundary of the package
+//	        that contains the fault); fn itself when there is none.
 func pickFrames(fns []string) (entry, fn string) {
 	for _, f := range fns {
 		if isRepoFunc(f) {
@@ -417,12 +418,12 @@ type ChildSpec struct {
 	Start   int    `json:"start"`
 	Journal string `json:"journal"`
 	// Only: when non-nil, run exactly this case (replay) instead of the generated list.
-	Only      *Case `json:"only,omitempty"`
-	NoRlimit  bool  `json:"no_rlimit,omitempty"`
+	Only     *Case `json:"only,omitempty"`
+	NoRlimit bool  `json:"no_rlimit,omitempty"`
 	// RlimitBytes overrides AddressSpaceLimit (used by the single-case retry of an unattributable death).
 	RlimitBytes uint64 `json:"rlimit_bytes,omitempty"`
-	HangSecs  int   `json:"hang_secs"`
-	ReadLimit int64 `json:"read_limit"`
+	HangSecs    int    `json:"hang_secs"`
+	ReadLimit   int64  `json:"read_limit"`
 	// SkipFields: "entry|field" pairs whose remaining cases are skipped (the parent adds a pair after
 	// three process deaths with the same key on mutants of that field).
 	SkipFields []string `json:"skip_fields,omitempty"`
@@ -688,7 +689,6 @@ func CrashTail(txt string) string {
 	}
 	return txt
 }
-
 
 // FuncFromDump applies the key rule to the first goroutine of a crash log / goroutine dump that
 // contains a repository frame (wantMarker: only goroutines whose stack contains this text).
